@@ -676,7 +676,9 @@ class NestedFrame(pd.DataFrame):
         and self[nest_name].array.list_index is [0, 0, 1, 1, 1, 2, 2, 2, 2].
         """
         new_df = self.reset_index(drop=True)
-        new_df[nest_name] = pack_sorted_df_into_struct(flat_df, name=nest_name)
+        # Replace the whole column by name: NestedFrame.__setitem__ would parse a nested column
+        # name containing "." as a "nest.field" path
+        super(NestedFrame, new_df).__setitem__(nest_name, pack_sorted_df_into_struct(flat_df, name=nest_name))
         return new_df.set_index(self.index)
 
     def _resolve_dropna_target(self, on_nested, subset):
